@@ -406,7 +406,7 @@ def raise_sig(spec, e):
 
 def corr_dyne(ctx):
     rng = ctx.rng
-    n_cases = ctx.budget(160, 1600)
+    n_cases = ctx.budget(200, 3000)
     cases = []
     for _ in range(n_cases):
         spec = gen_dyne_case(rng)
@@ -562,7 +562,7 @@ def run_peaks_impl(case):
 
 def corr_peaks(ctx):
     rng = ctx.rng
-    n_cases = ctx.budget(40, 400)
+    n_cases = ctx.budget(50, 800)
     cases, terms = [], []
     for _ in range(n_cases):
         case = gen_peaks_case(rng)
@@ -752,7 +752,7 @@ def check_collation_impl(case, samples, sd, regvals):
 
 def corr_collation(ctx):
     rng = ctx.rng
-    n_cases = ctx.budget(120, 1200)
+    n_cases = ctx.budget(150, 2500)
     cases, terms = [], []
     for _ in range(n_cases):
         case = gen_collation_case(rng)
@@ -837,8 +837,11 @@ def fock_prefix(rng, n, weak=False, t=3):
 
 def gen_fock_case(rng, max_n=3):
     n = rng.randint(1, max_n)
+    full_perm = rng.random() < 0.3
+    if full_perm:
+        n = max_n
     t = rng.choice([2, 3, 3, 4]) if n >= 3 else rng.choice([3, 4, 5])
-    modes = rng.sample(range(n), rng.randint(1, n))
+    modes = rng.sample(range(n), n if full_perm else rng.randint(1, n))
     return dict(backend="fock", n=n, deleted=[], live=list(range(n)), prefix=fock_prefix(rng, n, t=t), hbar=2.0,
                 backend_options={"cutoff_dim": t}, meas=dict(kind="fock", modes=modes), u=rng.random())
 
@@ -866,7 +869,7 @@ def choice_injector(u, record):
 
 def corr_fock(ctx):
     rng = ctx.rng
-    n_cases = ctx.budget(60, 600)
+    n_cases = ctx.budget(80, 1200)
     cases, terms = [], []
     for _ in range(n_cases):
         spec = gen_fock_case(rng)
@@ -1486,6 +1489,132 @@ def check_cat(case):
     return fails
 
 
+# ---- bosonic rejection sampler on many-peak states: accepted density proportional to the Born density -----
+
+def gen_reject_case(rng):
+    case = gen_cat_case(rng)
+    case["kind"] = rng.choice(["hom", "het"])
+    case["pts"] = [[round(rng.uniform(-0.8, 0.8), 3), round(rng.uniform(-0.8, 0.8), 3)] for _ in range(2)]
+    case["peak"] = rng.randrange(4)
+    return case
+
+
+def reject_program(case):
+    n = case["n"]
+    prog = sf.Program(n)
+    with prog.context as q:
+        ops.Catstate(case["a"], 0.0, case["p"], representation=case["rep"]) | q[0]
+        if n == 2:
+            ops.Squeezed(case["r"], 0.0) | q[1]
+            ops.BSgate(case["theta"], case["bsphi"]) | (q[0], q[1])
+        if case["kind"] == "hom":
+            ops.MeasureHomodyne(case["phi"]) | q[case["k"]]
+        else:
+            ops.MeasureHeterodyne() | q[case["k"]]
+    return prog
+
+
+def reject_probe(case, x, peak_pos, u):
+    """one run with the proposal forced to peak `peak_pos`, phase-space sample x and uniform draw u;
+    returns (accepted at first try, record)"""
+    rec = {"nrand": 0}
+
+    def choice(a, size=None, p=None, **kw):
+        rec["a"] = list(a)
+        rec["P"] = np.array(p, dtype=float)
+        return np.array([a[min(peak_pos, len(a) - 1)]])
+
+    def mvn(mean, cov, *a, **kw):
+        rec.setdefault("mvn", []).append((np.array(mean, dtype=float), np.array(cov, dtype=float)))
+        return np.array(x, dtype=float)
+
+    def rnd(size=None):
+        rec["nrand"] += 1
+        return np.array([u if rec["nrand"] == 1 else 0.0])
+    with hbar_set(case["hbar"]):
+        eng = sf.Engine("bosonic")
+        be = eng.backend
+        snap = {}
+        rp = Rng(choice=choice, mvn=mvn, random=rnd)
+        for nm in ("measure_homodyne", "measure_heterodyne"):
+            orig = getattr(be, nm)
+
+            def f(*a, _orig=orig, **k):
+                snap["pre"] = read_circuit(eng, "bosonic")
+                with rp:
+                    return _orig(*a, **k)
+            setattr(be, nm, f)
+        res = eng.run(reject_program(case))
+    rec["pre"] = snap["pre"]
+    rec["sample"] = np.array(res.samples)
+    return rec["nrand"] == 1, rec
+
+
+def n2(x, m, S):
+    d = np.asarray(x) - np.asarray(m)
+    return np.exp(-0.5 * d @ np.linalg.inv(S) @ d) / (2 * np.pi * np.sqrt(np.linalg.det(S)))
+
+
+def check_reject(case):
+    fails = []
+    k = case["k"]
+    idx = [2 * k, 2 * k + 1]
+    sig = np.diag([EPS ** 2, 1 / EPS ** 2]) if case["kind"] == "hom" else np.eye(2)
+    try:
+        _, rec0 = reject_probe(case, case["pts"][0], 0, 0.0)
+    except Exception as e:
+        return [("raises:bosonic:%s:sample:%s:cat" % (case["kind"], type(e).__name__), "sampling a cat-state measurement raised %r" % (e,))]
+    pre = rec0["pre"]
+    npk = len(rec0["a"])
+    # proposal components, one forced run per envelope peak
+    comps = []
+    for j in range(npk):
+        _, rj = reject_probe(case, case["pts"][0], j, 0.0)
+        comps.append(rj["mvn"][0])
+    P = rec0["P"]
+    if abs(P.sum() - 1) > 1e-9 or np.any(P < 0):
+        fails.append(("born:bosonic:reject:proposal-weights", "proposal probabilities %s" % P))
+
+    def born(x):
+        tot = 0.0
+        for w, mu, cv in zip(pre["weights"], pre["means"], pre["covs"]):
+            if case["kind"] == "hom":
+                d = len(mu)
+                R = np.eye(d)
+                c, sn = math.cos(case["phi"]), math.sin(case["phi"])
+                R[idx[0], idx[0]], R[idx[0], idx[1]], R[idx[1], idx[0]], R[idx[1], idx[1]] = c, sn, -sn, c
+                mu, cv = R @ mu, R @ cv @ R.T
+            tot = tot + w * n2(x, mu[idx], np.real(cv[np.ix_(idx, idx)]) + sig)
+        return float(np.real(tot))
+
+    ratios = []
+    for x in case["pts"]:
+        lo, hi = 0.0, 1.0
+        acc1, _ = reject_probe(case, x, case["peak"] % npk, 1.0 - 1e-12)
+        if acc1:
+            rho = 1.0
+        else:
+            for _ in range(16):
+                mid = 0.5 * (lo + hi)
+                acc, _ = reject_probe(case, x, case["peak"] % npk, mid)
+                if acc:
+                    lo = mid
+                else:
+                    hi = mid
+            rho = 0.5 * (lo + hi)
+        g = float(sum(Pj * n2(x, m, S) for Pj, (m, S) in zip(P, comps)))
+        ratios.append((rho, g, born(x)))
+    case["_ratios"] = [[float(v) for v in r] for r in ratios]
+    (r0, g0, p0), (r1, g1, p1) = ratios
+    if min(r0, r1) < 0.01 or min(p0, p1) <= 0 or min(g0, g1) <= 0:
+        return fails  # acceptance too small to be measured by bisection; not informative
+    k0, k1 = r0 * g0 / p0, r1 * g1 / p1
+    if abs(k0 - k1) > 4e-3 * max(k0, k1):
+        fails.append(("born:bosonic:reject:acceptance", "bosonic %s on a %d-peak cat state: acceptance x proposal is not proportional to the Born density "
+                      "(acceptance %.5f, %.5f; proposal %.5g, %.5g; Born %.5g, %.5g at two outcomes)" % (case["kind"], len(pre["weights"]), r0, r1, g0, g1, p0, p1)))
+    return fails
+
+
 CHECKS = {}
 
 
@@ -1530,6 +1659,7 @@ def register_checks():
         "layout": check_layout,
         "cat": check_cat,
         "all-measured": check_all_measured,
+        "reject": check_reject,
     })
 
 
@@ -1569,23 +1699,24 @@ def search(ctx):
     run_corpus(ctx)
     nt_dyne = nontrivial_dyne
     b_dyne = lambda sp: "search:dyne:%s:n%d%s" % (sp["meas"]["kind"], len(sp["live"]), ":del" if sp["deleted"] else "")
-    run_stream(ctx, "dyne-family", _fam_gen, check_dyne_family, ctx.budget(60, 700), nt_dyne, b_dyne)
+    run_stream(ctx, "dyne-family", _fam_gen, check_dyne_family, ctx.budget(100, 2000), nt_dyne, b_dyne)
     run_stream(ctx, "all-measured", gen_all_measured, check_all_measured, ctx.budget(6, 40), lambda sp: False, lambda sp: "search:all-measured:" + sp["backend"])
-    run_stream(ctx, "fock-family", gen_fock_case, check_fock_family, ctx.budget(40, 500),
+    run_stream(ctx, "fock-family", gen_fock_case, check_fock_family, ctx.budget(80, 1500),
                lambda sp: sp["n"] >= 2 and sp["meas"]["modes"] != list(range(len(sp["meas"]["modes"]))), lambda sp: "search:fock:n%d" % sp["n"])
-    run_stream(ctx, "threshold", gen_threshold_case, check_threshold, ctx.budget(30, 300), nt_dyne, lambda sp: "search:threshold:%d" % sp["outcome"])
-    run_stream(ctx, "gaussian-fock", gen_gfock_case, check_gaussian_fock, ctx.budget(30, 300),
+    run_stream(ctx, "threshold", gen_threshold_case, check_threshold, ctx.budget(40, 800), nt_dyne, lambda sp: "search:threshold:%d" % sp["outcome"])
+    run_stream(ctx, "gaussian-fock", gen_gfock_case, check_gaussian_fock, ctx.budget(40, 600),
                lambda sp: sp["meas"]["modes"] != list(range(len(sp["meas"]["modes"]))), lambda sp: "search:gaussian-%s" % sp["meas"]["kind"])
-    run_stream(ctx, "layout", gen_layout_case, check_layout, ctx.budget(30, 300), lambda c: any(x[0] == "measure" and x[1] != sorted(x[1]) for x in c["cmds"]), lambda c: "search:layout:n%d" % c["n"])
-    run_stream(ctx, "fock-homodyne", gen_fockhom_case, check_fock_homodyne, ctx.budget(6, 60), lambda sp: sp["n"] == 2 and sp["meas"]["modes"] != [0], lambda sp: "search:fock-homodyne:n%d" % sp["n"])
-    run_stream(ctx, "cat", gen_cat_case, check_cat, ctx.budget(6, 60), lambda c: c["n"] == 2 and c["k"] != 0, lambda c: "search:cat:n%d:%s" % (c["n"], c["rep"]))
-    if not ctx.quick:
+    run_stream(ctx, "layout", gen_layout_case, check_layout, ctx.budget(40, 600), lambda c: any(x[0] == "measure" and x[1] != sorted(x[1]) for x in c["cmds"]), lambda c: "search:layout:n%d" % c["n"])
+    run_stream(ctx, "fock-homodyne", gen_fockhom_case, check_fock_homodyne, ctx.budget(10, 120), lambda sp: sp["n"] == 2 and sp["meas"]["modes"] != [0], lambda sp: "search:fock-homodyne:n%d" % sp["n"])
+    run_stream(ctx, "cat", gen_cat_case, check_cat, ctx.budget(10, 150), lambda c: c["n"] == 2 and c["k"] != 0, lambda c: "search:cat:n%d:%s" % (c["n"], c["rep"]))
+    run_stream(ctx, "reject", gen_reject_case, check_reject, ctx.budget(12, 300), lambda c: c["n"] == 2 and c["k"] != 0, lambda c: "search:reject:%s:%s" % (c["kind"], c["rep"]))
+    if True:
         def gen_fhs(rng):
             sp = gen_fockhom_case(rng)
             sp["backend_options"] = {"cutoff_dim": 8}
             sp["u"] = rng.random()
             return sp
-        run_stream(ctx, "fock-homodyne-sample", gen_fhs, check_fock_homodyne_sample, 8, lambda sp: sp["n"] == 2 and sp["meas"]["modes"] != [0], lambda sp: "search:fock-homodyne-sample")
+        run_stream(ctx, "fock-homodyne-sample", gen_fhs, check_fock_homodyne_sample, ctx.budget(3, 25), lambda sp: sp["n"] == 2 and sp["meas"]["modes"] != [0], lambda sp: "search:fock-homodyne-sample")
 
 
 def correspondence(ctx):
